@@ -6,7 +6,9 @@ import (
 	"strings"
 )
 
-var statuses = []int{200, 201, 202, 204, 206, 301, 302, 304, 400, 404, 418, 429, 500, 502, 503}
+// statuses a handler (or backend) may answer with - among them the ones the plugin itself produces (413) and Helios produces elsewhere
+// (429, 502, 503, 504): a status coming from behind the plugin is relayed like any other
+var statuses = []int{200, 201, 202, 204, 206, 301, 302, 304, 400, 404, 413, 413, 414, 418, 429, 431, 499, 500, 502, 503, 504, 507, 599}
 
 func farSize(t *rapid.T, label string) int {
 	if lab.Thorough() && rapid.IntRange(0, 7).Draw(t, label+"-1MiB") == 0 {
